@@ -41,8 +41,10 @@ def _cleanup():
 
 
 # ----------------------------------------------------------------- Coq side
-def ensure_built(log=None):
-    """Full .vo build of /verif/coq under a lock (no-op when current)."""
+def ensure_built(targets=None):
+    """.vo build of /verif/coq under a lock (no-op when current). With
+    [targets] (paths of .vo files relative to coq/) only those and their
+    dependencies are built; without, everything (setup_cmd)."""
     lock = open(os.path.join(COQ, ".build.lock"), "w")
     fcntl.flock(lock, fcntl.LOCK_EX)
     try:
@@ -66,7 +68,7 @@ def ensure_built(log=None):
                 cwd=COQ, check=True, stdout=subprocess.DEVNULL, stderr=subprocess.DEVNULL,
             )
         r = subprocess.run(
-            ["timeout", "3000", "make", "-f", "Makefile.coq", "-j16"],
+            ["timeout", "3000", "make", "-f", "Makefile.coq", "-j16"] + list(targets or []),
             cwd=COQ, stdout=subprocess.PIPE, stderr=subprocess.STDOUT, text=True,
         )
         if r.returncode != 0:
@@ -141,15 +143,10 @@ def check_theorems(prop_id, theorem_names, axiom_whitelist=()):
     if not os.path.exists(path):
         return [], ["Properties/%s.v missing" % prop_id], {}
     text = strip_coq_comments(open(path, encoding="utf-8").read())
-    digests = {}
-    dpath = os.path.join(COQ, "Properties", "STATEMENTS.sha256")
-    if os.path.exists(dpath):
-        for line in open(dpath):
-            if line.strip():
-                h, n = line.split()
-                digests[n] = h
+    dpath = os.path.join(COQ, "Properties", prop_id + ".sha256")
+    committed = open(dpath).read().split()[0] if os.path.exists(dpath) else None
     h = hashlib.sha256(open(path, "rb").read()).hexdigest()
-    if digests.get(prop_id + ".v") != h:
+    if committed != h:
         problems.append("Properties/%s.v does not match committed statement digest" % prop_id)
     rc, out, err = coqc(path)
     if rc != 0:
@@ -245,10 +242,16 @@ def coq_show(run_module, expr, extra_header=""):
 
 # ----------------------------------------------------------------- findings
 def load_known():
+    out = []
     p = os.path.join(VERIF, "known_findings.json")
-    if not os.path.exists(p):
-        return []
-    return json.load(open(p))["findings"]
+    if os.path.exists(p):
+        out.extend(json.load(open(p))["findings"])
+    d = os.path.join(VERIF, "known_findings.d")
+    if os.path.isdir(d):
+        for f in sorted(os.listdir(d)):
+            if f.endswith(".json"):
+                out.extend(json.load(open(os.path.join(d, f)))["findings"])
+    return out
 
 
 class Verdict:
